@@ -154,6 +154,54 @@ def guarded_objects(rep, f, I):
                    "%s calls %s without holding RangeTokenMap::fMutex (line %d): lazily built range tokens raced on first use" % (fn["q"], name, x["l"]),
                    "%s:%d" % (fn["file"], x["l"]))
     rep.floor("C17.b/rangemap", k, 4)
+    # tokens are registered with their lookup map already built (no lazy build on a shared token)
+    rep.rule("C17.b/eager-map", "every RangeToken a range factory registers in the shared RangeTokenMap has had createMap() called "
+             "since it was last assigned (array elements: somewhere in the same buildRanges), and RegularExpression::compile builds "
+             "the map of every range token it compiles — so that no thread ever builds the map of a shared token during matching")
+    nreg = 0
+    for q, fns in sorted(f.by_q.items()):
+        if not q.endswith("RangeFactory::buildRanges"):
+            continue
+        for fn in fns:
+            ev = []
+            for x in fn["_facts"]:
+                if x["k"] == "asg" and x["lhs"][0] == "l":
+                    ev.append((x["l"], 0, "asg", x["lhs"][1]))
+                elif x["k"] == "local" and x.get("init") is not None:
+                    ev.append((x["l"], 0, "asg", x["name"]))
+                elif x["k"] == "call":
+                    c = x["x"]
+                    nm = c[1].split("::")[-1]
+                    if c[1] == "RangeToken::createMap" and c[2]:
+                        r = c[2]
+                        base = r[1] if r[0] == "l" else (r[1][1] if r[0] == "x" and r[1][0] == "l" else None)
+                        ev.append((x["l"], 1, "map", base, r[0] == "x"))
+                    elif c[1] == "RangeTokenMap::setRangeToken" and len(c[3]) >= 2:
+                        t = c[3][1]
+                        base = t[1] if t[0] == "l" else (t[1][1] if t[0] == "x" and t[1][0] == "l" else None)
+                        ev.append((x["l"], 2, "reg", base, t[0] == "x"))
+            ev.sort(key=lambda e: (e[0], e[1]))
+            mapped = set()
+            arrays_mapped = set(e[3] for e in ev if e[2] == "map" and e[4])
+            for e in ev:
+                if e[2] == "asg":
+                    mapped.discard(e[3])
+                elif e[2] == "map":
+                    mapped.add(e[3])
+                elif e[2] == "reg":
+                    nreg += 1
+                    ok = (e[3] in mapped) or (e[4] and e[3] in arrays_mapped)
+                    rep.ob("C17.b/eager-map", "%s@setRangeToken:%d" % (q, nreg), ok,
+                           "token %s registered with its map built" % e[3] if ok else
+                           "%s registers token '%s' at line %d without createMap(): its map would be built lazily, unsynchronised, by whichever threads use the category first" % (q, e[3], e[0]),
+                           "%s:%d" % (fn["file"], e[0]))
+    rep.floor("C17.b/eager-map", nreg, 30)
+    comp = [fn for fn in f.fns_named("RegularExpression::compileSingle") + f.fns_named("RegularExpression::compile")]
+    forced = any(x["k"] == "call" and x["x"][1] == "RangeToken::createMap" for fn in comp for x in fn["_facts"])
+    rep.ob("C17.b/eager-map", "RegularExpression::compile", forced,
+           "compile builds the lookup map of the range tokens it compiles" if forced else
+           "RegularExpression::compile no longer calls RangeToken::createMap(): maps of compiled range tokens are built during matching, "
+           "which races when a compiled expression (pattern facet in a cached grammar) is shared", "src/xercesc/util/regx/RegularExpression.cpp")
     # registration API callers
     for x in f.kind("call"):
         if x["x"][1] in ("RangeTokenMap::setRangeToken", "RangeTokenMap::addKeywordMap", "RangeTokenMap::addRangeMap", "RangeTokenMap::addCategory"):
